@@ -129,10 +129,12 @@ bool PyTreeSpec::IsPrefix(const PyTreeSpec &other, const bool &strict) const {
                     EXPECT_EQ(reordered_other_offsets.front(),
                               b->num_nodes,
                               "PyTreeSpec traversal out of range.");
-                    auto original_b = other.m_traversal.crbegin() + (b - other_traversal.crbegin());
+                    // NOTE: take a snapshot of the current (possibly already reordered by an
+                    // ancestor dict node) subtree rather than reading from the original traversal.
+                    const std::vector<Node> snapshot{b, b + b->num_nodes};
                     for (const auto &[i, j] : reordered_index_to_index) {
-                        std::copy(original_b + other_offsets[j + 1],
-                                  original_b + other_offsets[j],
+                        std::copy(snapshot.cbegin() + other_offsets[j + 1],
+                                  snapshot.cbegin() + other_offsets[j],
                                   b + reordered_other_offsets[i + 1]);
                     }
                 }
